@@ -587,3 +587,85 @@ func c09BatchKeys(c *Ctx) {
 	}
 	r.Min("C09-N1", n, 3, "batch key registration obligations (from C07-T2)")
 }
+
+// N7: an element may be *added* only under a version key prepared for writing. prepareCollKeyForWrite gives an expired
+// or cleared collection a fresh version, so that what is added does not join the left-overs of the old generation (still
+// on disk until compaction under the wait-compact policy); GetCollVersionKey, the readers' and removers' entry, never
+// does. A function that takes its key information from GetCollVersionKey therefore puts no key built on its VerKey.
+func c09N7(c *Ctx) {
+	r := c.R
+	r.Clause("C09-N7", "elements are added only under a version key prepared for writing")
+	sites := c.W.AllSites(an.Call("rockredis.(*RockDB).GetCollVersionKey"), "GetCollVersionKey", []string{"rockredis"})
+	r.Min("C09-N7", len(sites), 10, "callers of GetCollVersionKey")
+	seen := map[string]bool{}
+	for _, sw := range sites {
+		u := sw.U
+		if seen[u.Name] || strings.HasSuffix(u.Name, ".prepareCollKeyForWrite") {
+			continue
+		}
+		seen[u.Name] = true
+		tv := tupleVars(u, "rockredis.(*RockDB).GetCollVersionKey")
+		if len(tv) == 0 || tv[0] == "" {
+			continue // returned directly to the caller
+		}
+		ver := tv[0] + ".VerKey"
+		bad := false
+		for _, p := range u.Match(an.Call("engine.WriteBatch.Put")) {
+			k := u.ArgTerm(p, 0)
+			if ds := u.Match(an.LocalStore(k)); len(ds) == 1 && ds[0].RHS != nil {
+				k = u.C.Term(ds[0].RHS)
+			}
+			if strings.Contains(k, ver) {
+				bad = true
+				r.Bad("C09-N7", u.Name+": puts a key built on a version key that was not prepared for writing", u.Pos(p.Pos),
+					"key "+k+": the key information comes from GetCollVersionKey, which does not renew the version of an expired or cleared collection")
+			}
+		}
+		if !bad {
+			r.Ok("C09-N7", u.Name+": takes the version key from GetCollVersionKey and adds nothing under it", u.Pos(sw.S.Pos), "")
+		}
+	}
+}
+
+func init() {
+	old := registry["C09"].Run
+	registry["C09"].Run = func(c *Ctx) { old(c); c09N7(c) }
+}
+
+// N8: LTRIM removes the items outside [start, stop] and nothing else. A range delete is end-exclusive and in ltrim2
+// its end is the key of the first item that stays (or one past the last item): no Delete in the trim may name a key
+// that is the end of one of its range deletes. (Other commands delete `[min, max)` and then `max` because their max is
+// an inclusive bound; here it is not.) The helpers of the trim are read in place of their calls.
+func c09N8(c *Ctx) {
+	r := c.R
+	r.Clause("C09-N8", "LTRIM deletes no key that ends one of its range deletes (the first kept item)")
+	u := c.unit("C09-N8", "rockredis.(*RockDB).ltrim2")
+	if u == nil {
+		return
+	}
+	resolve := func(s *an.Site, i int) string {
+		k := u.ArgTerm(s, i)
+		if ds := u.Match(an.LocalStore(k)); len(ds) == 1 && ds[0].RHS != nil {
+			k = u.C.Term(ds[0].RHS)
+		}
+		return k
+	}
+	ends := map[string]bool{}
+	drs := u.Match(an.Call("engine.WriteBatch.DeleteRange"))
+	for _, s := range drs {
+		ends[resolve(s, 1)] = true
+	}
+	r.Min("C09-N8", len(drs), 1, "range deletes of ltrim2")
+	dels := u.Match(an.Call("engine.WriteBatch.Delete"))
+	r.Min("C09-N8", len(dels), 1, "item deletes of ltrim2")
+	for _, s := range dels {
+		k := resolve(s, 0)
+		r.Check("C09-N8", u.Name+": the deleted key is not the exclusive end of a range delete of the same trim", u.Pos(s.Pos), !ends[k],
+			"key "+k+" is the first item that stays (a range delete already excludes it; deleting it too loses an element the length still counts)")
+	}
+}
+
+func init() {
+	old := registry["C09"].Run
+	registry["C09"].Run = func(c *Ctx) { old(c); c09N8(c) }
+}
